@@ -412,7 +412,7 @@ class Tracer:
             t = self.body.blocks[s].term
             if t.kind != "switch":
                 continue
-            out.extend(self.edge_pred(t, label))
+            out.extend(self.edge_pred(t, label, s))
             # `let v = match c { A => Some(..), B => None }; if let Some(..) = v`: the arm taken tells which assignment
             # of v ran last, hence that its block was passed — everything known there is known here
             db = self._implied_def_block(s, label)
@@ -479,12 +479,18 @@ class Tracer:
                     continue
                 t = self.body.blocks[s].term
                 if t.kind == "switch":
-                    gs.extend(self.edge_pred(t, label))
+                    gs.extend(self.edge_pred(t, label, s))
             out.append(gs)
         return out
 
-    def edge_pred(self, switch_term, label):
+    def edge_pred(self, switch_term, label, bb=None):
         dt = self.operand(switch_term.discr)
+        if dt[0] == "phi" and bb is not None:
+            # `let t = a && f(x); if t` — once the constant alternative has been threaded away (cfg), the block that switches
+            # on the temporary has a single predecessor, and that predecessor's assignment is the value switched on
+            one = self._single_pred_def(bb, switch_term.discr)
+            if one is not None:
+                dt = one
         dty = switch_term.j.get("discr_ty")
         res = []
         for d in (dt[1] if dt[0] == "phi" else (dt,)):
@@ -493,6 +499,37 @@ class Tracer:
             # a phi discriminant: keep only predicates common... conservatively none
             return []
         return res
+
+    def _single_pred_def(self, bb, discr):
+        if discr is None or discr.place is None or not discr.place.is_local():
+            return None
+        tl = discr.place.local
+        blk = self.body.blocks[bb]
+        # follow pure copies inside the switching block
+        for st in reversed(blk.stmts):
+            if st.kind == "assign" and st.lhs.is_local() and st.lhs.local == tl:
+                if st.rv.kind == "use" and st.rv.ops and st.rv.ops[0].kind in ("move", "copy") and st.rv.ops[0].place.is_local():
+                    tl = st.rv.ops[0].place.local
+                else:
+                    return None
+        cur = bb
+        for _ in range(8):      # back along a chain of single-predecessor blocks (drops of temporaries sit in between)
+            preds = [p for p in self.cfg.pred[cur] if not self.body.blocks[p].cleanup]
+            if len(set(preds)) != 1:
+                return None
+            pb = self.body.blocks[preds[0]]
+            val = None
+            for st in pb.stmts:
+                if st.kind == "assign" and st.lhs.is_local() and st.lhs.local == tl:
+                    val = st
+            if val is not None:
+                return self.rvalue(val.rv, frozenset())
+            if pb.term.kind == "call" and pb.term.dest is not None and pb.term.dest.is_local() and pb.term.dest.local == tl:
+                t = pb.term
+                path = t.func.fn["path"] if t.func.kind == "fn" else ("indirect",)
+                return ("call", path, tuple(self.operand(a) for a in t.args), (self.body.id, pb.idx))
+            cur = pb.idx
+        return None
 
     def _pred_of(self, d, dty, label):
         # boolean negation
